@@ -160,7 +160,9 @@ def compute_fixed_resolution_buffer(data, bounds, target_data=None, target_cid=N
 
         if cache_id in ARRAY_CACHE:
             if ARRAY_CACHE[cache_id]['hash'] == current_array_hash:
-                return ARRAY_CACHE[cache_id]['array']
+                # The caller owns the array that is returned (and may modify
+                # it in place), so we hand out a copy of the cached array.
+                return ARRAY_CACHE[cache_id]['array'].copy()
 
         # To save time later, if the pixel cache doesn't match at the level of the
         # data and target_data, we just reset the cache.
@@ -311,9 +313,9 @@ def compute_fixed_resolution_buffer(data, bounds, target_data=None, target_cid=N
 
         current_array_hash = current_array_hash[:1] + (cache_bounds,) + current_array_hash[2:]
 
-        if subset_state is None:
-            ARRAY_CACHE[cache_id] = {'hash': current_array_hash, 'array': array}
-        else:
-            ARRAY_CACHE[cache_id] = {'hash': current_array_hash, 'array': array}
+        # The array that is returned belongs to the caller, so the cache keeps
+        # its own copy - otherwise an in-place modification of the returned
+        # array would change what later calls with the same cache_id return.
+        ARRAY_CACHE[cache_id] = {'hash': current_array_hash, 'array': array.copy()}
 
     return array
